@@ -350,7 +350,19 @@ def rule_extend(toks):
     return rewrite(toks, "$v:chain.extend($e);", "{ let vtmp = $e; vext(&mut $v, vtmp.as_slice()); }")
 
 
-NAMED_RULES = {"Rmapconcat": rule_mapconcat, "Rextend": rule_extend, "Rassert": rule_assert, "Rconcat": rule_concat, "Rbytes": rule_bytes, "R0": rule_R0, "R1": rule_R1, "R5": rule_R5, "R6": rule_R6}
+def rule_itermut(toks):
+    """R2: `for p in X.iter_mut() {` → index loop over the same container in the same order"""
+    return rewrite(toks, "for $p:ident in $X:chain.iter_mut() {",
+                   "let mut vk: usize = 0; while vk < $X.len() { let ghost vpre = $X@; let $p = &mut $X[vk]; vk += 1;")
+
+
+def rule_any(toks):
+    """R4: `X.iter().any(|p| E)` → loop with early exit (definition of Iterator::any)"""
+    return rewrite(toks, "$X:chain.iter().any(|$p:ident| $E)",
+                   "{ let mut vfound = false; for $p in vit: $X.iter() { if $E { vfound = true; break; } } vfound }")
+
+
+NAMED_RULES = {"Rany": rule_any, "Ritermut": rule_itermut, "Rmapconcat": rule_mapconcat, "Rextend": rule_extend, "Rassert": rule_assert, "Rconcat": rule_concat, "Rbytes": rule_bytes, "R0": rule_R0, "R1": rule_R1, "R5": rule_R5, "R6": rule_R6}
 
 
 def loops(toks):
